@@ -16,8 +16,12 @@ def family(name):
 
 
 def available(prop):
+    import os
+    only = [x for x in os.environ.get("VERIF_FAMILIES", "").split(",") if x]
     out = []
     for f in FAMILIES:
+        if only and f not in only:
+            continue
         try:
             m = family(f)
         except ImportError:
